@@ -452,6 +452,9 @@ func exploreScenario(c *Ctx, sc scenario, bound int) {
 		if x.preemptionsBefore(len(x.points)) > 0 {
 			c.Nontrivial(1)
 		}
+		if nexec%997 == 1 {
+			c.Sample(map[string]any{"scenario": sc.name, "preemption_bound": bound, "schedule": compress(x.choices), "observations": obs})
+		}
 		key := strings.Join(obs, " ## ")
 		outcomes[key] = true
 		c.Outcome(sc.name + key)
